@@ -2,6 +2,7 @@ package main
 
 import (
 	"fmt"
+	"go/constant"
 	"go/token"
 	"go/types"
 	"sort"
@@ -910,18 +911,58 @@ func ruleSkipFlags(c *Ctx) []Ob {
 		}
 		return triF // zero value of a fresh field
 	}
-	paths, over := truthTable(fn, fn.Params[0], []string{aOpt, aPtr, aBin, aCont, aDefNil, aNoCopy0},
-		func(a map[string]bool) bool { return !(a[aPtr] && a[aBin]) },
-		func(a map[string]bool, p simPath) {
-			note("CanSkipEncodeIfNil", a, p, flagOf(p, "CanSkipEncodeIfNil"), a[aOpt] && (a[aPtr] || a[aBin] || a[aCont]))
-			hasDefault := p.stored["Default"] && !a[aDefNil]
-			note("CanSkipIfDefault", a, p, flagOf(p, "CanSkipIfDefault"), a[aOpt] && !a[aPtr] && hasDefault)
-			note("NoCopy", a, p, flagOf(p, "NoCopy"), !a[aNoCopy0])
-			res["Spec"].seen++
-			if !p.stored["Spec"] && res["Spec"].bad == "" {
-				res["Spec"].bad = "Spec is not assigned on the path returning at " + c.InstrPos(p.ret)
+	// the kind of the field is enumerated by value (every declared kind and one undeclared code), so the container test may be
+	// a table lookup, a comparison chain or a predicate function; which kinds are containers is the protocol's statement
+	kk, kerr := c.kinds()
+	if kerr != nil {
+		s.undec("truth-table", c.Pos(fn.Pos()), kerr.Error())
+		return s.obs
+	}
+	tvals := []int64{0xc8}
+	for v := range kk.name {
+		tvals = append(tvals, v)
+	}
+	sort.Slice(tvals, func(i, j int) bool { return tvals[i] < tvals[j] })
+	paths, over := 0, false
+	for _, tv := range tvals {
+		tv := tv
+		isCont := tv == kk.byName["MAP"] || tv == kk.byName["LIST"] || tv == kk.byName["SET"]
+		truthTableExtra = func(key string) tri {
+			if key == aCont {
+				if tab, _, ok := c.tableOf(pkgReflect, "containerTypes"); ok {
+					cv, present := tab[tv]
+					return triOf(present && cv.Kind() == constant.Bool && constant.BoolVal(cv))
+				}
+				return triU
 			}
-		})
+			if strings.HasPrefix(key, "Type.T==") {
+				var n int64
+				if _, err := fmt.Sscan(key[len("Type.T=="):], &n); err == nil {
+					return triOf(n == tv)
+				}
+			}
+			return triU
+		}
+		p1, o1 := truthTable(fn, fn.Params[0], []string{aOpt, aPtr, aBin, aDefNil, aNoCopy0},
+			func(a map[string]bool) bool { return !(a[aPtr] && a[aBin]) },
+			func(a0 map[string]bool, p simPath) {
+				a := map[string]bool{aCont: isCont}
+				for k, v := range a0 {
+					a[k] = v
+				}
+				note("CanSkipEncodeIfNil", a, p, flagOf(p, "CanSkipEncodeIfNil"), a[aOpt] && (a[aPtr] || a[aBin] || a[aCont]))
+				hasDefault := p.stored["Default"] && !a[aDefNil]
+				note("CanSkipIfDefault", a, p, flagOf(p, "CanSkipIfDefault"), a[aOpt] && !a[aPtr] && hasDefault)
+				note("NoCopy", a, p, flagOf(p, "NoCopy"), !a[aNoCopy0])
+				res["Spec"].seen++
+				if !p.stored["Spec"] && res["Spec"].bad == "" {
+					res["Spec"].bad = "Spec is not assigned on the path returning at " + c.InstrPos(p.ret)
+				}
+			})
+		truthTableExtra = nil
+		paths += p1
+		over = over || o1
+	}
 	if over || paths == 0 {
 		s.undec("truth-table", c.Pos(fn.Pos()), fmt.Sprintf("fromDefsField could not be evaluated over its condition atoms (%d paths, bound exceeded: %v)", paths, over))
 	}
